@@ -586,3 +586,71 @@ def amount_required(ctx):
             ctx.violate(q, 'with the amount of the spent output equal to 0 (the default of an input parsed from raw bytes) a BIP143 preimage is returned', e.node or fn,
                         'parse a raw unsigned segwit transaction and sign() it without filling in Input.value: the signature commits to amount 0, verify() is True, the network rejects it')
     ctx.floor(len(raises), 1, 'raising paths')
+
+
+@PROP.obligation('C01.nested-hash', canaries=[
+    mut.replace_expr('transactions', 'Input.__init__', 'ls.public_hash and (not nested)', 'ls.public_hash', 'hash of the wrapping P2SH script taken as the key / witness-script hash'),
+])
+def nested_hash(ctx):
+    """Input.__init__ evaluated as a whole (update_scripts inlined) for a P2SH-nested segwit input that is given the scriptPubKey it spends
+    (locking_script = a914<hash160 of the witness program>87, as providers and the wallet's stored outputs supply it): public_hash - the
+    hash in the BIP143 script code 76a914<public_hash>88ac and in the scriptSig push 0014<public_hash> / 0020<public_hash> - stays the
+    key hash (P2SH-P2WPKH) or the sha256 of the redeem script (P2SH-P2WSH), not the script hash of the wrapper. The same input without
+    locking_script is the reference."""
+    q = 'transactions:Input.__init__'
+    fn = ctx.repo.func(q)
+    a = fn.args
+    names = [x.arg for x in a.args]
+    defaults = {}
+    for n_, d in zip(names[len(names) - len(a.defaults):], a.defaults):
+        try:
+            defaults[n_] = ast.literal_eval(d)
+        except Exception:
+            defaults[n_] = S(('var', n_))
+    K, K2, LS = ('var', 'key'), ('var', 'key2'), ('var', 'ls')
+    WRAP = b'\x22' * 20
+    n = 0
+
+    def run(stype, wt, lock, keys, extra):
+        hooks = dict(LAYOUT_HOOKS)
+        hooks['Script.parse_bytes'] = lambda interp, args, kwargs, st_, node: S(LS)
+        hooks['Network'] = lambda interp, args, kwargs, st_, node: S(('var', 'net'))
+
+        def decide(t):
+            if isinstance(t, tuple) and t and t[0] == 'isinstance' and t[1] in (K, K2):
+                return 'Key' in show(t[2])
+            if isinstance(t, tuple) and len(t) == 4 and t[0] == 'cmp' and t[1] in ('in', 'not in') and t[2] in (K, K2):
+                # the two key objects of the scenario are different keys
+                return t[1] == 'not in'
+            return None
+        it = Interp(ctx.repo, 'transactions', hooks=hooks, self_cls='transactions:Input', decide=decide, max_depth=3, inline=['self.update_scripts'])
+        args = dict(defaults)
+        args.update({'self': S(SELF), 'prev_txid': b'\xaa' * 32, 'output_n': b'\x00\x00\x00\x00', 'keys': keys, 'script_type': stype, 'witness_type': wt, 'locking_script': lock,
+                     'value': 1000, 'network': 'bitcoin'})
+        args.update(extra)
+        heap = {A(K, 'hash160'): b'\x11' * 20, A(K, 'public_byte'): b'\x02' * 33, A(K, 'compressed'): True, A(K2, 'hash160'): b'\x12' * 20, A(K2, 'public_byte'): b'\x03' * 33,
+                A(K2, 'compressed'): True, A(LS, 'script_types'): ['p2sh'], A(LS, 'public_hash'): WRAP}
+        try:
+            exits = it.run_function(fn, args, State(heap=heap))
+        except AnalysisError as e:
+            ctx.undecided('Input.__init__(script_type=%r, witness_type=%r, locking_script %s) not evaluable: %s' % (stype, wt, 'given' if lock else 'absent', str(e)[:100]))
+        rets = [e for e in exits if e.kind == 'return']
+        if not rets:
+            ctx.undecided('Input.__init__(script_type=%r, witness_type=%r, locking_script %s): no normal exit' % (stype, wt, 'given' if lock else 'absent'))
+        # conditions on values the scenario leaves open (the serialised redeem script) select among exits; both runs must agree exit by exit
+        return sorted(((tuple((show(t), pol) for t, pol in e.pc), term(e.heap.get(A(SELF, 'public_hash'))), term(e.heap.get(A(SELF, 'unlocking_script')))) for e in rets), key=repr)
+    lock = b'\xa9\x14' + WRAP + b'\x87'
+    for stype, wt, keys, extra in (('p2sh_p2wpkh', 'p2sh-segwit', [S(K)], {}), ('p2sh_p2wpkh', None, [S(K)], {}),
+                                   ('p2sh_p2wsh', 'p2sh-segwit', [S(K), S(K2)], {'sigs_required': 2}), ('p2sh_p2wsh', None, [S(K), S(K2)], {'sigs_required': 2})):
+        ref = run(stype, wt, None, list(keys), extra)
+        got = run(stype, wt, lock, list(keys), extra)
+        n += 1
+        ctx.saw('%s, witness_type=%s: public_hash %s with the scriptPubKey given, %s without' % (stype, wt, sorted(set(show(g[1])[:44] for g in got)), sorted(set(show(r[1])[:44] for r in ref))))
+        bad = [g for g in got if g[1] == WRAP] or ([] if got == ref else [g for g in got if g not in ref][:1] or got[:1])
+        if bad:
+            g = bad[0]
+            r = ([x for x in ref if x[0] == g[0]] or ref)[0]
+            ctx.violate(q, 'a %s input (witness_type=%r) that is given the P2SH scriptPubKey it spends ends with public_hash %s and scriptSig %s; without locking_script: %s and %s' % (
+                stype, wt, show(g[1])[:44], show(g[2])[:50], show(r[1])[:44], show(r[2])[:50]), fn,
+                'the input is signed over the script code of the wrapper hash and pushes 0014<wrapper hash> / 0020<wrapper hash> as scriptSig: verify() is True, the spend is invalid on the network')
+    ctx.floor(n, 4, 'nested-input scenarios')
